@@ -34,11 +34,11 @@ static const unsigned char ALPHA[13] = { '\n', ' ', '\t', '=', '#', ';', '"', '[
 
 static int mode, n1, n2;
 #define core_only (mc_tag >= 100 && mc_tag < 200)   /* tags 100+i: exploration on the core configuration CORE[i] */
-static unsigned char content[40000]; static size_t content_len;
+static unsigned char content[700000]; static size_t content_len;
 static char dirpath[300], filepath[400], outdir[300];
 
 /* ---- adversarial lines ---- */
-static char *LINES[72]; static int NLINES;
+static char *LINES[80]; static int NLINES; static char *BIGLINE; static int bigmode;
 static void build_lines(void)
 {
   static const char *fixed[] = {
@@ -54,6 +54,8 @@ static void build_lines(void)
   /* physical lines of exactly BUFSIZ-1, BUFSIZ and BUFSIZ+1 bytes (newline included): buffer-size boundaries of the line reader */
   for (int tot = 8191; tot <= 8193; tot++) { l = malloc(8300); strcpy(l, "k="); memset(l + 2, 'y', (size_t)tot - 3); l[tot - 1] = 0; LINES[NLINES++] = l; }
   l = malloc(8300); memset(l, ' ', 2); memset(l + 2, 'z', 8189); l[8191] = 0; LINES[NLINES++] = l;      /* continuation line of 8192 bytes */
+  /* a value longer than the stack the library calls run on (see main): whoever copies a value to the stack overflows it */
+  l = malloc(300100); strcpy(l, "big="); memset(l + 4, 'v', 300000); l[300004] = 0; BIGLINE = l;      /* not in the alphabet: combined with every single other line (bigmode) */
 }
 
 /* items (one or two lines) that span the shapes: values present/absent, bare keys, repeated keys, re-opened and empty sections */
@@ -77,11 +79,23 @@ static void gen(void)
     }
     return;
   }
-  set_cfg(mc_tag >= 200 ? mc_tag : core_only ? CORE[mc_tag - 100] : mc_tag);
+  bigmode = mc_tag >= 300;
+  set_cfg(mc_tag >= 300 ? mc_tag - 300 : mc_tag >= 200 ? mc_tag : core_only ? CORE[mc_tag - 100] : mc_tag);
   content_len = 0;
   if (mode == 0) {
     int len = mc_choose((core_only ? n2 : n1) + 1);
     for (int i = 0; i < len; i++) content[content_len++] = ALPHA[mc_choose(13)];
+  } else if (bigmode && mode == 1) {
+    /* the 300 000-byte value alone, in front of and behind every other line */
+    int other = mc_choose(NLINES + 1), first = other < NLINES ? mc_choose(2) : 0;
+    for (int k = 0; k < 2; k++) {
+      const char *l = (k == first) ? BIGLINE : (other < NLINES ? LINES[other] : NULL);
+      if (!l) continue;
+      size_t ll = strlen(l);
+      memcpy(content + content_len, l, ll); content_len += ll;
+      content[content_len++] = '\n';
+    }
+    final_nl = 1;
   } else {
     int nl = mc_choose((core_only ? n2 : n1) + 1);
     for (int i = 0; i < nl; i++) {
@@ -259,7 +273,7 @@ static void exec_pair(void)
   if (mc_want_sample()) mc_sample("%s", mc_case_sig);
 }
 
-int main(int argc, char **argv)
+static int real_main(int argc, char **argv)
 {
   mc_args(argc, argv);
   obs_lenient = 1;      /* C04 is about memory safety and termination on arbitrary bytes, not about listing/getter agreement */
@@ -291,6 +305,7 @@ int main(int argc, char **argv)
   }
   if (mc_opt.case_id) return mc_replay(gen, exec, mc_opt.case_id);
   int complete = 1;
+  if (mode == 1) for (int c = 0; c < NCFG && complete; c++) { mc_tag = 300 + c; complete = mc_explore(gen, exec, 0, 0); }     /* tags 300+c: the long-value family */
   for (int c = 0; c < NCFG && complete; c++) { mc_tag = c; complete = mc_explore(gen, exec, 0, 0); }
   for (int c = 0; c < NODD && complete; c++) { mc_tag = 200 + c; complete = mc_explore(gen, exec, 0, 0); }
   if (complete) mc_st->bound_completed = n1;
@@ -301,4 +316,19 @@ int main(int argc, char **argv)
   }
   mc_finish();
   return 0;
+}
+
+/* everything runs on a thread with a 192 KiB stack (forked workers inherit it): stack use that grows with the content
+ * (alloca, variable length arrays) overflows within the enumerated contents instead of only beyond the 8 MiB default */
+#include <pthread.h>
+static int g_argc; static char **g_argv; static int g_rc;
+static void *on_small_stack(void *a) { (void)a; g_rc = real_main(g_argc, g_argv); return NULL; }
+int main(int argc, char **argv)
+{
+  pthread_t th; pthread_attr_t at;
+  g_argc = argc; g_argv = argv;
+  pthread_attr_init(&at); pthread_attr_setstacksize(&at, 192 * 1024);
+  if (pthread_create(&th, &at, on_small_stack, NULL) != 0) { perror("pthread_create"); return 2; }
+  pthread_join(th, NULL);
+  return g_rc;
 }
